@@ -41,6 +41,8 @@ def case_stream(rng, tier, small_len=None, gen_n=None, full_len=2, with_layout=T
             yield "seq-full+req", pre + seq, G.render(pre + seq)
     for seq in G.structure_cases():
         yield "structure", seq, G.render(seq)
+    for seq in G.repeat_cases():
+        yield "repeat", seq, G.render(seq)
     n = small_len or (4 if tier == "quick" else 5)
     keep = 0.12 if tier == "quick" else 0.35
     for seq in G.sequences(G.SMALL_VOCAB, n):
